@@ -1,4 +1,4 @@
-CONSTANTS Scope = "small" Mutant = "none" DepEnumOffered = FALSE
+CONSTANTS Scope = "small" Mutant = "none" DepEnumOffered = FALSE DepMapOffered = FALSE
 SPECIFICATION Spec
 INVARIANT Inv_ExactlyOneCall
 INVARIANT Inv_FlatFirstOccurrence
